@@ -159,6 +159,18 @@ def _site_tag(f, t):
     return "#%d" % i
 
 
+def _site_tag_stmt(f, bid, i):
+    # ordinal of this Deps aggregate among the function's Deps aggregates (stable without line numbers)
+    n = 0
+    for b2, i2, st2 in f.stmts():
+        rv = st2.get("rv", {})
+        if st2["k"] == "assign" and rv.get("k") == "aggregate" and rv.get("adt") in ("cosmwasm_std::DepsMut", "cosmwasm_std::Deps", "cosmwasm_std::OwnedDeps"):
+            if (b2, i2) == (bid, i):
+                return "#%d" % n
+            n += 1
+    return "#?"
+
+
 class ViewAnalysis:
     """status of storage-typed values: ('view', ns items) | ('contract-view',) | ('root',) | ('unknown', text)"""
 
@@ -200,6 +212,11 @@ class ViewAnalysis:
         if o[0] == "bound" and o[1] in ("cache_of", "base_ro"):
             return self.classify(f, o[2], depth)
         if o[0] == "param":
+            # inside a closure a `param` leaf is a captured parameter of the enclosing function
+            if f.kind == "closure":
+                root = self.F.fn(f.key.split("::{closure")[0])
+                if root is not None:
+                    f = root
             return self.param_status(f, o[1], depth)
         return ("unknown", fmt(o)[:60])
 
@@ -283,37 +300,33 @@ def r3(ctx, cfg):
 def r4(ctx, cfg):
     F, P = cfg.facts, cfg.prov
     R = "C08.R4"
-    exp = {"wasm::WasmKeeper::with_storage": ("cosmwasm_std::DepsMut", "wasm::Wasm::contract_storage_mut"),
-           "wasm::WasmKeeper::with_storage_readonly": ("cosmwasm_std::Deps", "wasm::Wasm::contract_storage"),
-           "contracts::decustomize_deps_mut": ("cosmwasm_std::DepsMut", None),
-           "contracts::decustomize_deps": ("cosmwasm_std::Deps", None)}
-    found = {}
+    # every Deps / DepsMut value in the crate is either built by with_storage[_readonly] over the callee's own window, or a
+    # re-typing of an existing Deps / DepsMut whose storage is passed through untouched (`deps.storage`) - wherever that
+    # re-typing is written (a helper such as decustomize_deps[_mut], or in place inside the lifting closures)
+    window = {"wasm::WasmKeeper::with_storage": "wasm::Wasm::contract_storage_mut", "wasm::WasmKeeper::with_storage_readonly": "wasm::Wasm::contract_storage"}
+    seen_window = set()
+    n_sites = 0
     for f in F.user_fns():
         for bid, i, st in f.stmts():
             rv = st.get("rv", {})
-            if st["k"] == "assign" and rv.get("k") == "aggregate" and rv.get("adt") in ("cosmwasm_std::DepsMut", "cosmwasm_std::Deps",
-                                                                                          "cosmwasm_std::OwnedDeps"):
-                root = f.key.split("::{closure")[0]
-                found.setdefault(root, []).append((f, bid, i, st))
-    for root, items in sorted(found.items()):
-        e = exp.get(root)
-        ctx.ob(R, root, "Deps-built-only-at-known-sites", e is not None and len(items) == 1,
-               "Deps/DepsMut constructed in %s (%d sites): contracts must get their storage only through with_storage[_readonly]" % (root, len(items)),
-               fn=items[0][0], line=items[0][3]["line"], sample="known site")
-        if e is None:
-            continue
-        f, bid, i, st = items[0]
-        o = P.rvalue(f, st["rv"], (bid, i))
-        so = peel(dict(o[2]).get("storage", ("unknown", "")))
-        if e[1] is None:
-            ok = is_param_field(so, "deps", "storage")
-            want = "deps.storage passed through"
-        else:
-            ok = so[0] == "call" and so[1] == e[1] and len(so[2]) == 3 and is_param(so[2][2], "address")
-            want = "%s(.., address)" % e[1]
-        ctx.ob(R, root, "storage-is-contract-window", ok, "storage handed to the contract is %s, expected %s" % (fmt(so)[:120], want), fn=f,
-               line=st["line"], sample=fmt(so)[:100])
-    ctx.ob(R, "-", "all-four-sites-present", set(found) == set(exp), "Deps construction sites: %s" % sorted(found), sample=str(sorted(found)))
+            if not (st["k"] == "assign" and rv.get("k") == "aggregate" and rv.get("adt") in ("cosmwasm_std::DepsMut", "cosmwasm_std::Deps", "cosmwasm_std::OwnedDeps")):
+                continue
+            n_sites += 1
+            root = f.key.split("::{closure")[0]
+            o = P.rvalue(f, st["rv"], (bid, i))
+            so = peel(dict(o[2]).get("storage", ("unknown", "")))
+            if root in window:
+                ok = so[0] == "call" and so[1] == window[root] and len(so[2]) == 3 and is_param(so[2][2], "address")
+                want = "%s(.., address)" % window[root]
+                seen_window.add(root)
+            else:
+                base = peel(so[1]) if so[0] == "field" and so[2] == "storage" else ("?",)
+                ok = so[0] == "field" and so[2] == "storage" and base[0] in ("param", "cparam", "bound") and rv.get("adt") != "cosmwasm_std::OwnedDeps"
+                want = "the storage of the Deps / DepsMut it was given (`deps.storage`)"
+            ctx.ob(R, root, "storage-is-contract-window%s" % _site_tag_stmt(f, bid, i), ok, "storage handed to the contract in %s is %s, expected %s" % (f.key, fmt(so)[:120], want), fn=f,
+                   line=st["line"], sample=fmt(so)[:100])
+    ctx.ob(R, "-", "all-four-sites-present", seen_window == set(window) and n_sites >= 4, "Deps construction sites: %d, window sites %s" % (n_sites, sorted(seen_window)),
+           sample="%d sites, windows built by %s" % (n_sites, sorted(x.rsplit("::", 1)[1] for x in seen_window)))
     # Contract entry points are invoked only from the call_* / query_smart closures
     allowed = {"wasm::WasmKeeper::call_execute", "wasm::WasmKeeper::call_instantiate", "wasm::WasmKeeper::call_reply",
                "wasm::WasmKeeper::call_sudo", "wasm::WasmKeeper::call_migrate", "wasm::WasmKeeper::query_smart"}
